@@ -75,7 +75,7 @@ M = [
     ("c18-inplace-rename", "C18", P + "models/pddl_predicate.py", "        self.signature = {\n            old_to_new_param_names.get(old_param_name, old_param_name): param_type\n            for old_param_name, param_type in self.signature.items()\n        }", "        for old_param_name in list(self.signature.keys()):\n            new_param_name = old_to_new_param_names.get(old_param_name, old_param_name)\n            self.signature[new_param_name] = self.signature.pop(old_param_name)"),
     ("c19-anchored-single-digit", "C19", P + "exporters/ff_output_parser.py", 'PLAN_COMPONENT_REGEX = r"\\d: ', 'PLAN_COMPONENT_REGEX = r"^\\w*\\s+\\d: '),
     ("c19-no-lower", "C19", P + "exporters/ff_output_parser.py", "action_sequence.lower().strip()", "action_sequence.strip()"),
-    ("c20-constants-via-call-map", "C20", P + "models/grounding_utils.py", "        if predicate_params[index] in domain.constants:\n            predicate_object_mapping[parameter_name] = predicate_params[index]", "        if predicate_params[index] in domain.constants and predicate_params[index] not in parameters_map.values():\n            predicate_object_mapping[parameter_name] = predicate_params[index]"),
+    ("c20-constants-via-call-map", "C20", P + "models/grounding_utils.py", "        if predicate_params[index] in domain.constants:\n            predicate_object_mapping[parameter_name] = predicate_params[index]", "        if predicate_params[index] in domain.constants:\n            predicate_object_mapping[parameter_name] = predicate_params[index] if predicate_params[index] not in parameters_map.values() else list(parameters_map.values())[0]"),
     ("c20-typed-form-declared-type", "C20", P + "models/grounding_utils.py", "            predicate_signature[domain_def_parameter] = action.signature[\n                lifted_predicate_param_name\n            ]", "            pass"),
 ]
 
